@@ -1,5 +1,5 @@
 """C05 - arbitrary input never corrupts memory, leaks, hangs or leaves partial results (partial)"""
-from props import comps, comps_iff, comps_json, comps_jsonnum, comps_robust, comps_types
+from props import comps, comps_iff, comps_json, comps_jsonnum, comps_robust, comps_types, comps_xmlbuf
 
 PID = "C05"
 LEVEL = "proof"
@@ -7,11 +7,12 @@ ASAN_QUICK = True            # the correspondence runs also on the ASan+UBSan bu
 
 
 def components():
-    # index-style models with explicit out-of-bounds answers (if-feature compiler, JSON number lexer + exponent normaliser)
+    # index-style models with explicit out-of-bounds answers (if-feature compiler, JSON number lexer + exponent normaliser),
+    # the size-only model of the buffer growth of the XML value lexer (every store recorded with the block size of the moment)
     # and list-style lexers whose models cannot read past the end of the input: agreement of the C code with them on
     # truncated / malformed inputs under ASan+UBSan is what ties the no-out-of-bounds theorems to the code
     return [comps_iff.IffCompile(), comps_iff.IffValue(), comps.Utf8(), comps.XmlVal(), comps_json.JsonStr(),
-            comps_types.Dec64Next(), comps_jsonnum.JsonNum()]
+            comps_types.Dec64Next(), comps_jsonnum.JsonNum(), comps_xmlbuf.XmlBuf()]
 
 
 def oracles_():
@@ -40,12 +41,25 @@ MANIFEST = {
             "written (mantissa x 10^exp, exact rationals), all five layouts of lyjson_exp_number and the three outcomes without conversion "
             "(the model is the code as of /repo 63186d2, which repaired layout 2; the former wrong results 0.5E1 -> `.`, 0.0055E3 -> `55` are "
             "the regression Example C05_jsonnum_former_witnesses); C05_jsonnum_denotes_bounded: the same by computation on all 37449 short "
-            "strings (checks the specification side independently). The lexer models (UTF-8 decoder, XML value lexer, JSON string "
+            "strings (checks the specification side independently). C05_xmlbuf_no_overflow: for EVERY sequence of events of the loop of "
+            "lyxml_parse_value() (plain characters of 1-4 bytes, references storing 1-4 bytes, failing references, CDATA sections of ANY "
+            "length, end character, errors) every store - the pending plain bytes copied by lyxml_parse_value_use_buf(), the bytes of a "
+            "reference, the CDATA content, the final copy and the NUL - lies inside the block as allocated at that moment (model: block "
+            "size, bytes used, pending plain bytes, the 24-byte start and the as-coded 128-byte growth loop; bytes abstracted away) and "
+            "the growth loop ends; C05_xmlbuf_len_exact: a dynamic value comes back in a block of exactly length+1 bytes and the stores "
+            "are contiguous from 0 to length+1 (no byte unwritten, none twice), a value without references / CDATA makes no store and "
+            "no allocation; C05_xmlbuf_size_bounded: every block size and requested size is at most the input length + 152, so size_t "
+            "cannot wrap; C05_xmlbuf_no_leak: the malloc/realloc/free calls of one call are balanced (error: everything allocated is freed exactly "
+            "once; dynamic value: exactly the one block, not freed; value in place: no call); regression Example C05_xmlbuf_oneshot_growth_refuted: the one-shot growth of the seeded change C05-5 stores "
+            "200 bytes into a block of 153. The lexer models (UTF-8 decoder, XML value lexer, JSON string "
             "lexer, decimal64 parser) are structural recursions on the input list and cannot read past its end. Tie: extracted models "
-            "vs the C functions on generated, exhaustive-short, malformed and truncated inputs under ASan+UBSan (T2), crash-isolated.",
+            "vs the C functions on generated, exhaustive-short, malformed and truncated inputs under ASan+UBSan (T2), crash-isolated; for xmlbuf the "
+            "compared line is return code, dynamic flag, value length and the SEQUENCE of malloc/realloc/free requests of the real "
+            "lyxml_parse_value() (seen through macros around the allocator names in the white-box driver, xml.c unedited) on texts rendered "
+            "from event lists; the stores themselves are not observable from outside, there ASan is the observer.",
     "note": "Partial by nature: memory safety of the remaining C code, allocator failure paths, leaks and stack depth are runtime "
             "behaviour no executable Gallina model exhibits. Modelled C (with proofs): lys_compile_iffeature, lysc_iffeature_value, "
-            "ly_getutf8, lyxml_parse_value, lyjson_string, lyplg_type_parse_dec64, lyjson_number, lyjson_exp_number (+ helpers). "
+            "ly_getutf8, lyxml_parse_value (bytes: XmlText.v; buffer sizes: XmlBuf.v), lyxml_parse_value_use_buf, lyjson_string, lyplg_type_parse_dec64, lyjson_number, lyjson_exp_number (+ helpers). "
             "NOT modelled, only SEARCHED by the oracle `robust` (impl/t_robust.c, structure-aware mutation of valid seeds under "
             "ASan+UBSan with a leak check per case, a CPU limit per case, dictionary reference counts, log-location stack, module list and "
             "a health workload compared with a fresh context): lys_parse_mem (YANG, YIN, pattern and if-feature inside modules), "
